@@ -100,12 +100,20 @@ class Driver:
         if 'replyTimeoutMs' in self.cfg:
             limits['reply_timeout'] = self.cfg['replyTimeoutMs']
         kw = dict(daemon_kw or {})
+        if 'maxMsgSize' in self.cfg:
+            limits['max_message_size'] = self.cfg['maxMsgSize']
+        if 'policy_ctxs' in self.cfg:
+            import policygen
+            xml, rec = policygen.policy([tuple(c) for c in self.cfg['policy_ctxs']], self.cfg.get('groups_of'))
+            kw['policy'] = xml
+            self.cfg['policy'] = rec
         kw.setdefault('limits', limits)
         self.daemon = Daemon(build, **kw)
         self.lines = [{'e': 'Reset', 'cfg': {k: self.cfg[k] for k in
                                               ('maxNames', 'maxMatch', 'maxReplies', 'maxCompleted', 'maxPerUser',
                                                'busUid', 'policy')}}]
         self.stall = []
+        self.times = {}
 
     # -- writing one op; returns the normalised op record (None = skipped)
     def write_op(self, s, op):
@@ -129,7 +137,7 @@ class Driver:
         fl = op.get('fl', 0)
         if k == 'hello':
             ser = c.bus_call('Hello', flags=fl)
-            return {'k': 'hello', 'ser': ser, 'fl': fl, 'got': None}
+            return {'k': 'hello', 'ser': ser, 'fl': fl, 'got': []}
         if k == 'req':
             n = op['n']
             ser = c.bus_call('RequestName', 'su', (_txt(n), op['f']), flags=fl)
@@ -154,6 +162,11 @@ class Driver:
             return {'k': k, 'ser': ser, 'fl': fl, 'rule': B(r), '_': str(r)}
         if k == 'send':
             return self.write_send(c, op)
+        if k == 'big':
+            data = build_message(SIGNAL, c.next_serial(), {F_PATH: '/big', F_INTERFACE: 'com.example.Big', F_MEMBER: 'Big'},
+                                 'ay', [list(b'x' * op['n'])])
+            c.send_raw(data)
+            return {'k': 'big', 'n': op['n']}
         if k == 'raw':
             c.send_raw(bytes(op['bytes']))
             return {'k': 'raw', 'n': len(op['bytes'])}
@@ -248,7 +261,9 @@ class Driver:
         p1 = {}
         closing = []
         hello_idx = {}
+        eof_early = []
         self.stall = []
+        t_start = time.monotonic()
         nfd_before = self.daemon.nfds()
         # phase 1a: everybody writes
         for s in order:
@@ -266,7 +281,7 @@ class Driver:
                 if r is None:
                     continue
                 if r['k'] == 'hello':
-                    hello_idx[s] = len(rec_ops[s])
+                    hello_idx.setdefault(s, []).append(len(rec_ops[s]))
                 rec_ops[s].append(r)
                 wrote = wrote or r['k'] not in ('connect', 'connect_failed')
             if st.closed or st.eof or st.monitor:
@@ -282,21 +297,24 @@ class Driver:
         # phase 1b: everybody reads up to its own barrier reply
         for s in order:
             if s in p1:
-                self.read_until(s, p1[s], obs[s])
+                ok = self.read_until(s, p1[s], obs[s])
                 if s in closing:
                     st = self.slots[s]
+                    if not ok and st.eof:
+                        eof_early.append(s)      # the daemon had closed it before the client did
                     st.c.close()
                     st.closed = True
         # bind the unique name the bus handed out
-        for s, i in hello_idx.items():
-            ser = rec_ops[s][i]['ser']
-            got = []
-            for m in obs[s]:
-                if m['ty'] == 2 and m['rs'] == ser and m['args'] and m['args'][0]['t'] == 115:
-                    got = m['args'][0]['v']
-            rec_ops[s][i]['got'] = got
-            if got:
-                self.slots[s].c.unique = bytes(got).decode('latin-1')
+        for s, idxs in hello_idx.items():
+            for i in idxs:
+                ser = rec_ops[s][i]['ser']
+                got = []
+                for m in obs[s]:
+                    if m['ty'] == 2 and m['rs'] == ser and m['args'] and m['args'][0]['t'] == 115:
+                        got = m['args'][0]['v']
+                rec_ops[s][i]['got'] = got
+                if got:
+                    self.slots[s].c.unique = bytes(got).decode('latin-1')
         # give the daemon a moment to process client closes (the model does not depend on it)
         if closing:
             t0 = time.time()
@@ -316,16 +334,26 @@ class Driver:
             st = self.slots[s]
             if st.monitor and not st.closed and not st.eof:
                 self.drain(s, obs[s])
-        eof = []
+        eof = list(eof_early)
         for s in sorted(self.slots):
             st = self.slots[s]
             if st.eof and not st.closed:
                 eof.append(s)
                 st.c.close()
                 st.closed = True
-        line = {'e': 'Round', 'ops': [rec_ops[s] for s in sorted(self.slots)], 'sync': sync,
-                'obs': [obs[s] for s in sorted(self.slots)], 'eof': eof, 'stall': self.stall,
-                'mayExpire': bool(rnd.get('mayExpire', False))}
+        # timing windows for pending-reply expiry (one-sided, see BusTrace.TExpire / TEnd)
+        t_end = time.monotonic()
+        T = self.cfg.get('replyTimeoutMs')
+        exp_may, exp_must = 0, 0
+        if T is not None:
+            for idx, (ts, te) in self.times.items():
+                if t_end - ts >= T / 1000.0:
+                    exp_may = max(exp_may, idx)
+                if t_start - te >= 3 * T / 1000.0 + 2.0:
+                    exp_must = max(exp_must, idx)
+        self.times[len(self.lines) + 1] = (t_start, t_end)
+        line = {'e': 'Round', 'expMay': exp_may, 'expMust': exp_must, 'ops': [rec_ops[s] for s in sorted(self.slots)], 'sync': sync,
+                'obs': [obs[s] for s in sorted(self.slots)], 'eof': eof, 'stall': self.stall}
         self.lines.append(line)
         return line
 
